@@ -48,7 +48,7 @@ class C13(CtxCheck):
     # ---- scenario units (deterministic, outside the BFS) ---------------------------------------------------
     def units(self, tier: str, seed: int) -> list:
         return (super().units(tier, seed) + [{"orphan": kind, "gc": g} for kind in ("root", "nested") for g in (False, True)]
-                + [{"orphan": "cross-task", "gc": False}])
+                + [{"orphan": "cross-task", "gc": False}, {"orphan": "comp-parent", "gc": False}])
 
     def work(self, unit: dict, tier: str) -> dict:
         if "orphan" in unit:
@@ -90,6 +90,32 @@ class C13(CtxCheck):
                     if unit["gc"]:
                         gc.collect()
 
+            if unit["orphan"] == "comp-parent":
+                # the explicit parent is what current_context() gave inside a component's start() (kept after start-up): the child is a
+                # child of the real context, and leaving that while the child is open is reported like any other
+                from asphalt.core import Component, current_context, start_component
+
+                box: dict = {}
+
+                class Keeper(Component):
+                    async def start(self) -> None:
+                        box["ctx"] = current_context()
+
+                child = None
+                try:
+                    async with Context() as root:
+                        await start_component(Keeper, {}, timeout=None)
+                        child = Context(box["ctx"])
+                        if child.parent is not root:
+                            fails.append(("lifecycle", f"a context created with the context a component saw as explicit parent has parent {child.parent!r}, not the real context"))
+                        await child.__aenter__()
+                    fails.append(("lifecycle", "a context was left while a child created with a component's context as explicit parent was still open: no error"))
+                except RuntimeError:
+                    pass
+                except BaseException as e:  # noqa: BLE001
+                    if not (isinstance(e, BaseExceptionGroup) and e.subgroup(RuntimeError) is not None):
+                        fails.append(("lifecycle", f"leaving the parent of a still open child raised {e!r} instead of RuntimeError"))
+                return
             if unit["orphan"] == "cross-task":
                 # a (non-root) context entered by one task and left by another one: however that ends, afterwards the context is closed
                 async with Context():
